@@ -774,6 +774,9 @@ func (sp *StreamParser) ExecCmd(cb RdbObjExecutor) {
 		count := lp.NextInteger()              // items count
 		deleted := lp.NextInteger()            // deleted count
 		numFields := lp.NextInteger()          // num fields
+		if count < 0 || deleted < 0 || numFields < 0 || numFields > int64(len(val)) {
+			panicIfErr(fmt.Errorf("stream listpack master entry is corrupted : count(%d), deleted(%d), fields(%d)", count, deleted, numFields))
+		}
 		fields := make([][]byte, 0, numFields) // fields
 		for j := int64(0); j < numFields; j++ {
 			fields = append(fields, lp.Next())
@@ -822,6 +825,9 @@ func (sp *StreamParser) ExecCmd(cb RdbObjExecutor) {
 				// the entry carries its own fields; the master entry's numFields stays valid
 				// for the following SAMEFIELDS entries
 				entryFields := lp.NextInteger()
+				if entryFields < 0 || entryFields > int64(len(val)) {
+					panicIfErr(fmt.Errorf("stream listpack entry is corrupted : fields(%d)", entryFields))
+				}
 				for j := int64(0); j < entryFields; j++ {
 					args = append(args, lp.Next(), lp.Next())
 				}
